@@ -338,6 +338,16 @@ MUTANTS = [
      ['malt.pyct.transpiler._PythonFnFactory.instantiate']),
     ('c09-globals-copied', 'malt/pyct/transpiler.py', '        globals=globals_,', '        globals=dict(globals_),',
      ['malt.pyct.transpiler._PythonFnFactory.instantiate']),
+    ('c11-namer-not-seeded-with-namespace', 'malt/pyct/transpiler.py', '    namer = naming.Namer(namespace)',
+     '    namer = naming.Namer({})', ['malt.pyct.transpiler.GenericTranspiler.transform_function']),
+    ('c12-origin-info-after-erasing-defaults', 'malt/pyct/transpiler.py', '''    origin_info.resolve_entity(node, source, fn)
+
+    namespace = inspect_utils.getnamespace(fn)''', '''    node = self._erase_arg_defaults(node)
+    origin_info.resolve_entity(node, source, fn)
+
+    namespace = inspect_utils.getnamespace(fn)''', ['malt.pyct.transpiler.GenericTranspiler.transform_function']),
+    ('c09-defaults-not-erased', 'malt/pyct/transpiler.py', '    node = self._erase_arg_defaults(node)\n    result = self.transform_ast(node, context)',
+     '    result = self.transform_ast(node, context)', ['malt.pyct.transpiler.GenericTranspiler.transform_function']),
     ('c10-has-ignores-subkey', 'malt/pyct/cache.py', '    return subkey in parent', '    return True',
      ['malt.pyct.cache._TransformedFnCache.has']),
 ]
